@@ -2167,3 +2167,30 @@ variant('t-reactivex-handler-factory-with-a-local', ['C20'], 'rsocket/reactivex/
         "    def create_handler():\n        return ReactivexHandlerAdapter(handler_factory())",
         "    def create_handler():\n        delegate = handler_factory()\n        adapter = ReactivexHandlerAdapter(delegate)\n        return adapter",
         kind='twin')
+
+# C19.b the unknown-route slot in table form
+RRT = 'rsocket/routing/request_router.py'
+_UNK_OLD = """        if frame_type == FrameType.REQUEST_RESPONSE:
+            return self._unknown.response
+        elif frame_type == FrameType.REQUEST_STREAM:
+            return self._unknown.stream
+        elif frame_type == FrameType.REQUEST_CHANNEL:
+            return self._unknown.channel
+        elif frame_type == FrameType.REQUEST_FNF:
+            return self._unknown.fire_and_forget
+        elif frame_type == FrameType.METADATA_PUSH:
+            return self._unknown.metadata_push
+"""
+_UNK_TABLE = """        unknown = self._unknown
+
+        return {
+            FrameType.REQUEST_RESPONSE: unknown.response,
+            FrameType.REQUEST_STREAM: unknown.stream,
+            FrameType.REQUEST_CHANNEL: unknown.%s,
+            FrameType.REQUEST_FNF: unknown.fire_and_forget,
+            FrameType.METADATA_PUSH: unknown.metadata_push,
+        }.get(frame_type)
+"""
+variant('b-unknown-slot-table-channel-row-copied', ['C19'], RRT, _UNK_OLD, _UNK_TABLE % 'stream',
+        ('C19.b', 'routing table row / channel'))
+variant('t-unknown-slot-as-a-table', ['C19'], RRT, _UNK_OLD, _UNK_TABLE % 'channel', kind='twin')
